@@ -26,6 +26,19 @@ def make_world(fr):
                                       using=(lambda x, sc=sc, of=of: sc * x + of),
                                       inverse=(lambda y, sc=sc, of=of: (y - of) / sc)))
         srcs['B' if name == 'b' else 'B2'] = B
+    # a second reference frame of the same shape as A, linked to the sources by OTHER functions (shifted by one pixel):
+    # used at the end of every behaviour to ask the last request once more in another frame under the same cache identifier
+    A2 = Data(label='A2', x=np.zeros(tuple(fr['ashape'])))
+    dc.append(A2)
+    for name in ('b', 'b2'):
+        s = fr[name]
+        B = srcs['B' if name == 'b' else 'B2']
+        for j in range(len(s['shape'])):
+            sc, of = s['s'][j], s['o'][j]
+            dc.add_link(ComponentLink([A2.pixel_component_ids[s['pi'][j] - 1]], B.pixel_component_ids[j],
+                                      using=(lambda x, sc=sc, of=of: sc * x + of + 1),
+                                      inverse=(lambda y, sc=sc, of=of: (y - of - 1) / sc)))
+    srcs['__A2__'] = A2
     return A, dc, srcs
 
 
@@ -90,6 +103,17 @@ def replay_one(beh, bounds_table):
                 same = np.array_equal(got, want, equal_nan=True) if want.dtype != bool else np.array_equal(got.astype(bool), want)
                 if not same:
                     return (i, 'buffer[%s]' % mode, want.tolist(), got.tolist(), 'request %r bounds %r' % (r, bounds))
+        # the same cache identifier, another reference frame: the cached answer must be the uncached one
+        if beh['steps']:
+            A2 = srcs['__A2__']
+            try:
+                c = np.asarray(compute_fixed_resolution_buffer(B, bounds, target_data=A2, cache_id=cache_id, **kw))
+                u = np.asarray(compute_fixed_resolution_buffer(B, bounds, target_data=A2, **kw))
+            except Exception as e:
+                return (len(beh['steps']) - 1, 'buffer[other frame]', 'an array', 'raised %s: %s' % (type(e).__name__, e), None)
+            if c.shape != u.shape or not np.array_equal(c.astype(float), u.astype(float), equal_nan=True):
+                return (len(beh['steps']) - 1, 'buffer[other frame, cached]', u.tolist(), c.tolist(),
+                        'last request %r asked again with another reference dataset under the same cache identifier' % (r,))
     finally:
         ARRAY_CACHE.pop(cache_id, None)
         PIXEL_CACHE.pop(cache_id, None)
